@@ -206,31 +206,47 @@ def check_edge(ctx, prog):
     pn = [p["n"] for p in fn.params]
     cells = 0
     bad = None
+    BIG = (1 << 61, 1 << 62, (1 << 63) - 1)
+    grid = []
+    for shape in range(0, 5):
+        for start in range(0, 5):
+            for count in range(0, 6):
+                for stride in (None, 1, 2, 3):
+                    grid.append((shape, start, count, stride))
+    # extreme strides and shapes: the arithmetic is signed 64-bit, a sum or product that leaves that range is undefined
+    for shape in (4, 10, 1 << 40, (1 << 63) - 1):
+        for start in (0, 1, 3):
+            for count in (0, 1, 2, 3, 5):
+                for stride in BIG:
+                    grid.append((shape, start, count, stride))
     try:
-        for shape in range(0, 5):
-            for start in range(0, 5):
-                for count in range(0, 6):
-                    for stride in (None, 1, 2, 3):
-                        cells += 1
-                        env = {"*" + pn[0]: start, "*" + pn[1]: count, "*" + pn[3]: shape,
-                               pn[0]: 1, pn[1]: 1, pn[3]: 1, pn[2]: 0 if stride is None else 1}
-                        if stride is not None:
-                            env["*" + pn[2]] = stride
-                        r = concrete.run(fn, env)
-                        if stride is None:
-                            want = count > shape or start + count > shape
-                        else:
-                            want = count > shape or start + count > shape or \
-                                (count > 0 and start + (count - 1) * stride >= shape)
-                        if bool(r) != want:
-                            bad = bad or (start, count, stride, shape, r)
+        for shape, start, count, stride in grid:
+            cells += 1
+            env = {"*" + pn[0]: start, "*" + pn[1]: count, "*" + pn[3]: shape,
+                   pn[0]: 1, pn[1]: 1, pn[3]: 1, pn[2]: 0 if stride is None else 1, "$trap64": True}
+            if stride is not None:
+                env["*" + pn[2]] = stride
+            if stride is None:
+                want = count > shape or start + count > shape
+            else:
+                want = count > shape or start + count > shape or \
+                    (count > 0 and start + (count - 1) * stride >= shape)
+            try:
+                concrete.run_region(fn, (fn.entry, 0), set(), env, max_steps=200)
+                r = env.get("$ret")
+            except concrete.Overflow64 as o:
+                bad = bad or (start, count, stride, shape, "a signed 64-bit overflow in `%s`; the rule says %s" % (o, "NC_EEDGE" if want else "accept"))
+                continue
+            if bool(r) != want:
+                bad = bad or (start, count, stride, shape, r)
     except concrete.Unsupported as u:
         raise AnalysisBroken("check_EEDGE is no longer a pure arithmetic/comparison function: %s" % u)
     if bad:
         ctx.fail("R8.edge", fn.name, "rule", "for start=%s count=%s stride=%s shape=%s the validator returns %s"
                  % bad, fn=fn, line=fn.line)
     else:
-        ctx.ok("R8.edge", "check_EEDGE", "%d grid points (start,count<=5, stride<=3, shape<=4) agree with the rule" % cells)
+        ctx.ok("R8.edge", "check_EEDGE", "%d grid points (small values, and strides / shapes up to 2^63-1 under a 64-bit overflow trap) "
+               "agree with the rule" % cells)
 
 
 def run(ctx):
